@@ -10,13 +10,16 @@
        [3]     some modelled call returned Diverge
    Calls whose model is a plain total Gallina function (no Res type: header getters, CC helpers, flag
    getters, struct-field getters, Data() of EBP / SCTE-35, RemoveElementaryStreams, CanClose, Equal ...) cannot
-   have another outcome than "value" and are only listed in the comments.  Calls that have NO model (String(),
-   Format(), fmt.Sprint, psi.CanBuildPMT as a separate function, the state tracker at the end of scte.new) are
-   named in the comment of their group: for those the C05 run rests on the real side alone.
+   have another outcome than "value" and are only listed in the comments.  The printers (String(), Format(), fmt %v /
+   Sprint of a result) are run through their panic-relevant models of Model/Printers.v, the state tracker at the end of
+   scte.new through Model/State.v.  A call that still has NO model is named in the comment of its group: for those the
+   C05 run rests on the real side alone (at present: none; EBPSuccessReadTime returns a stored clock reading whose VALUE
+   is not modelled, the call itself is a field read).
    Properties/C05Tot.v proves that these ops never answer [2 x] / [3]. *)
 From Gots Require Import Base.Prelude Exec.ExecBase.
 From Gots Require Import Model.Packet Model.Create Model.AF Model.AFfn Model.Psi Model.Pat Model.Pmt Model.PmtDesc
-  Model.Pts Model.Pes Model.Ebp Model.Scte Model.ScteEnc Model.IO Model.PacketWriter Model.Bufio Model.Accumulator.
+  Model.Pts Model.Pes Model.Ebp Model.Scte Model.ScteEnc Model.IO Model.PacketWriter Model.Bufio Model.Accumulator
+  Model.SegDesc Model.State Model.Printers.
 
 (* ---- outcome classes ---- *)
 Inductive cls : Type := COk | CPanic | CDiverge.
@@ -171,9 +174,10 @@ Definition g_affn (b : bytes) (n : Z) : cls :=
 
 (* ------------------------------------------------------------------ psi *)
 (* psi.accessors: PointerField .. SectionLength are total in Model/Psi.v; TableHeaderFromBytes + Data();
-   psi.CanBuildPMT has no model of its own (its comparison is inlined in Pmt.extract_crc). *)
+   psi.CanBuildPMT(b, uint16(n)) is the plain function Printers.can_build_pmt (one comparison, total by construction). *)
 Definition g_psi_accessors (b : bytes) (n : Z) : cls :=
-  cl (Psi.table_header_from_bytes b).
+  cl (Psi.table_header_from_bytes b)
+  >> (let r := Printers.can_build_pmt b (Z.to_N (n mod 65536)) in COk).
 
 Definition pat_getters (p : bytes) : cls :=
   cl (Pat.num_programs p) >> cl (Pat.program_map p) >> cl (Pat.spts_pmt_pid p).
@@ -182,21 +186,35 @@ Definition g_psi_pat (b : bytes) (n : Z) : cls :=
   on_ok (Pat.new_pat b) (fun p => pat_getters p >> cl (Pat.is_pmt (pkt_of b) (Some p))).
 
 Definition desc_conv (d : Pmt.desc) : PmtDesc.t := PmtDesc.mk (Pmt.dtag d) (Pmt.ddata d).
-(* the decoders of one PMT descriptor, in the order of total.go (tag tests are total; Format() has no model) *)
+(* the calls on one PMT descriptor, in the order of total.go: Format(), String() (called directly: fmt would swallow its
+   panic), then the decoders (tag tests are total) *)
 Definition desc_calls (d : PmtDesc.t) : cls :=
-  cl (PmtDesc.is_iframe_profile d) >> cl (PmtDesc.is_dolby_atmos d) >> cl (PmtDesc.is_dolby_vision d)
+  cl (Printers.desc_format d) >> cl (Printers.desc_string d)
+  >> cl (PmtDesc.is_iframe_profile d) >> cl (PmtDesc.is_dolby_atmos d) >> cl (PmtDesc.is_dolby_vision d)
   >> cl (PmtDesc.decode_dolby_vision_codec d) >> cl (PmtDesc.decode_iso639_language_code d)
   >> cl (PmtDesc.decode_iso639_audio_type d) >> cl (PmtDesc.decode_maximum_bit_rate d)
   >> cl (PmtDesc.decode_ttml_iso639_language_code d) >> cl (PmtDesc.decode_ttml_subtitle_purpose d).
+(* per stream: String() and the String() of its stream type (both called directly as well), MaxBitRate, the descriptors *)
 Definition es_calls (e : Pmt.es) : cls :=
   let ds := map desc_conv (Pmt.descs e) in
-  cl (PmtDesc.max_bit_rate ds) >> allc desc_calls ds.
-(* psi.pmt: NewPMT; per stream MaxBitRate and per descriptor every decoder.  Total: Pids, VersionNumber,
-   CurrentNextIndicator, PIDExists / IsPidForStreamWherePresentationLagsEbp (with n and with every PID of the PMT itself),
-   the stream-type predicates (Model/StreamType.v), IsTTMLSubtitling, RemoveElementaryStreams (of {n, 256}, of the PMT's
-   first PID, of all its PIDs).  Not modelled: String(), Format(). *)
+  cl (Printers.es_string e) >> cl (Printers.stream_type_string (Pmt.stype e))
+  >> cl (PmtDesc.max_bit_rate ds) >> allc desc_calls ds.
+(* psi.pmt: NewPMT; p.String(); per stream es_calls; RemoveElementaryStreams({n, 256}) and p.String(); when the PMT had
+   PIDs: RemoveElementaryStreams(own[:1]), RemoveElementaryStreams(own), p.String().  Total by construction: Pids,
+   VersionNumber, CurrentNextIndicator, PIDExists / IsPidForStreamWherePresentationLagsEbp (with n and with every PID of
+   the PMT itself), the stream-type predicates (Model/StreamType.v), IsTTMLSubtitling, RemoveElementaryStreams. *)
 Definition g_psi_pmt (b : bytes) (n : Z) : cls :=
-  on_ok (Pmt.new_pmt b) (fun p => allc es_calls (Pmt.streams p)).
+  on_ok (Pmt.new_pmt b) (fun p =>
+    cl (Printers.pmt_string p)
+    >> allc es_calls (Pmt.streams p)
+    >> (let p1 := Pmt.remove_elementary_streams p [pid_of n; 256] in
+        cl (Printers.pmt_string p1)
+        >> match Pmt.pids p with
+           | [] => COk
+           | o :: _ =>
+             let p2 := Pmt.remove_elementary_streams (Pmt.remove_elementary_streams p1 [o]) (Pmt.pids p) in
+             cl (Printers.pmt_string p2)
+           end)).
 
 Definition g_psi_done (b : bytes) (n : Z) : cls := cl (Pmt.done_func b).
 Definition g_psi_crc (b : bytes) (n : Z) : cls := cl (Pmt.extract_crc b).
@@ -229,28 +247,40 @@ Definition g_psi_filter (b : bytes) (n : Z) : cls :=
 Definition g_psi_readpat (b : bytes) (n : Z) : cls :=
   let tail := if (Nat.modulo (List.length b) 188 =? 0)%nat then E.EOF else E.UnexpectedEOF in
   on_ok (Pat.read_pat (map Pat.RFull (chunks b) ++ [Pat.RFail tail])) pat_getters.
-(* psi.readpmt: ReadPMT(reader, n), n = -1: the PID of the first packet; then Pids (total) and String() (not modelled) *)
+(* psi.readpmt: ReadPMT(reader, n), n = -1: the PID of the first packet; then String() and Pids (total) *)
 Definition readpmt_pid (b : bytes) (n : Z) : N :=
   if (n =? -1)%Z then (if 3 <=? len b then pid_at b else 0) else pid_of n.
-Definition g_psi_readpmt (b : bytes) (n : Z) : cls := cl (Pmt.read_pmt b (readpmt_pid b n)).
+Definition g_psi_readpmt (b : bytes) (n : Z) : cls :=
+  on_ok (Pmt.read_pmt b (readpmt_pid b n)) (fun p => cl (Printers.pmt_string p)).
 
 (* ------------------------------------------------------------------ pes / ebp / scte35 *)
-(* pes.new: NewPESHeader (its getters read struct fields; %v / Format() are not modelled), then
+(* pes.new: NewPESHeader (its getters read struct fields), fmt %v of the header, Format(); then
    pes.ExtractTime(b) when len(b) >= 5 *)
 Definition g_pes_new (b : bytes) (n : Z) : cls :=
-  cl (Pes.new_pes_header b) >> (if 5 <=? len b then cl (Pes.extract_time b) else COk).
+  on_ok (Pes.new_pes_header b) (fun h => cl (Printers.pes_fmt_v h) >> cl (Printers.pes_format h))
+  >> (if 5 <=? len b then cl (Pes.extract_time b) else COk).
 (* ebp.read: the readers of /repo HEAD (length test before every optional field: g = true).  Getters, EBPTime,
-   StreamSyncSignal and Data() are total functions of Model/Ebp.v; fmt.Sprint is not modelled. *)
+   StreamSyncSignal and Data() are total functions of Model/Ebp.v; EBPSuccessReadTime reads a stored time.Time (the
+   clock reading itself is not modelled); fmt.Sprint(e) calls no gots code (Printers.ebp_sprint). *)
 Definition g_ebp_read (b : bytes) (n : Z) : cls :=
-  cl (Ebp.ReadEncoderBoundaryPoint true b).
-(* scte.new: NewSCTE35; all getters read struct fields; CanClose / Equal are total (Model/SegDesc.v);
-   UpdateData (total, Model/ScteEnc.v) and NewSCTE35 again on 0 :: out.  Not modelled: String(), and the state
-   tracker calls (NewState, ProcessDescriptor, Open) at the end of the group.
+  on_ok (Ebp.ReadEncoderBoundaryPoint true b) (fun fe => cl (Printers.ebp_sprint (snd fe))).
+(* scte.new: NewSCTE35; s.String() (it starts with UpdateData: the calls after it see the object it leaves behind, s1);
+   the getters of the signal and of its command read struct fields; per descriptor StreamSwitchSignalId, MID and
+   Components index d.mid / d.components (Model/Printers.v), the other getters read struct fields, CanClose / Equal are
+   total (Model/SegDesc.v); UpdateData (total, Model/ScteEnc.v) and NewSCTE35 again on 0 :: out; then the state tracker:
+   NewState, ProcessDescriptor of every descriptor, Open (Model/State.v through Printers.tracker_calls).
    `out` is a Go []byte: its elements are bytes by type.  The encoder model writes `byte(x)` as an explicit mod only
    where the value can exceed 255 for a normal object; `map w8` restores the type discipline for every object (it is the
    identity whenever the byte-range lemmas of the encoder hold: Proofs/ScteEncBytes.v, C09). *)
+Definition seg_calls (d : Scte.segdesc) : cls :=
+  cl (Printers.stream_switch_signal_id d) >> cl (Printers.seg_mid d) >> cl (Printers.seg_components d).
 Definition g_scte_new (b : bytes) (n : Z) : cls :=
-  on_ok (Scte.new_scte35 b) (fun s => cl (Scte.new_scte35 (0 :: map w8 (fst (ScteEnc.update_data s))))).
+  on_ok (Scte.new_scte35 b) (fun s =>
+    cl (Printers.scte_string s)
+    >> (let s1 := Printers.scte_after_string s in
+        allc seg_calls (Scte.s_descs s1)
+        >> cl (Scte.new_scte35 (0 :: map w8 (fst (ScteEnc.update_data s1))))
+        >> cl (Printers.tracker_calls (snd (ScteEnc.update_data s1))))).
 
 (* ------------------------------------------------------------------ streams *)
 (* bytes.NewReader(b) as a read script: Read delivers what fits of the remaining bytes, then io.EOF *)
